@@ -137,7 +137,13 @@ fn documented_string_type(format: &str) -> Option<&'static str> {
 #[kani::stub(regress::Regex::new, crate::verif_common::stub_regex_new)]
 fn c10_str_symbolic() {
     const N: usize = 10;
-    let bytes: [u8; N] = kani::any();
+    // one `any()` per byte: Kani's concrete playback does not record a whole-array `any()`
+    let mut bytes = [0u8; N];
+    let mut j = 0;
+    while j < N {
+        bytes[j] = kani::any();
+        j += 1;
+    }
     let len: usize = kani::any();
     kani::assume(len <= N);
     let mut i = 0;
@@ -197,7 +203,13 @@ fn c10_str_symbolic() {
 #[kani::stub(regress::Regex::new, crate::verif_common::stub_regex_new)]
 fn c10_num_symbolic() {
     const N: usize = 7;
-    let bytes: [u8; N] = kani::any();
+    // one `any()` per byte: Kani's concrete playback does not record a whole-array `any()`
+    let mut bytes = [0u8; N];
+    let mut j = 0;
+    while j < N {
+        bytes[j] = kani::any();
+        j += 1;
+    }
     let len: usize = kani::any();
     kani::assume(len <= N);
     let mut i = 0;
